@@ -132,12 +132,20 @@ def run_unit(name, seed=0, rlimit=None, keep=False, extra_args=()):
     r.gen_path = os.path.join(BUILD, f'{name}.rs')
     r.gen_sha = hashlib.sha256(text.encode()).hexdigest()[:16]
     gen_lines = text.split('\n')
-    # trusted-base scan of the generated file
+    # trusted-base scan of the generated file: every assumed item, with the item it sits on
     for ln, l in enumerate(gen_lines, 1):
         code = l.split('//')[0]
         m = TRUST_RX.search(code)
         if m:
-            r.trusted.append(f'{name}.rs:{ln}: {l.strip()[:140]}')
+            what = l.strip()
+            if re.fullmatch(r'(#\[[^\]]*\]\s*)+', what):
+                # the attribute is on its own line: name the item that follows
+                for k in range(ln, min(ln + 4, len(gen_lines))):
+                    nxt = gen_lines[k].strip()
+                    if nxt and not nxt.startswith('#[') and not nxt.startswith('//'):
+                        what = what + ' ' + nxt
+                        break
+            r.trusted.append(f'{name}: {what[:170]}')
     # labels
     for ln, l in enumerate(gen_lines, 1):
         m = re.search(r'//@ob\s+(.*)$', l)
